@@ -215,6 +215,19 @@ def corrupt(kind, good, pos):
 DUMMY = "CREATE TABLE {} (wrong_key TEXT, wrong_value TEXT, PRIMARY KEY (wrong_key))"
 
 
+def integrity_ok(path):
+    if not os.path.isfile(path):
+        return False
+    try:
+        c = sqlite3.connect("file:%s?mode=ro" % path, uri=True)
+        try:
+            return c.execute("PRAGMA integrity_check").fetchone() == ("ok",)
+        finally:
+            c.close()
+    except sqlite3.DatabaseError:
+        return False
+
+
 def db_exec(path, stmts):
     """all statements in one transaction, or none of them"""
     if not os.path.exists(path):
@@ -458,7 +471,32 @@ def handler(case):
         faulthandler.cancel_dump_traceback_later()
 
 
+OTHER = "model VerifOther\n  Real q;\nequation\n  q = 1;\nend VerifOther;\n"
+
+
+def mutate_tree(tree, kind):
+    """the caller edits, in place, the tree parse() handed out"""
+    if tree is None:
+        return "noop"
+    import pymoca.ast as past
+    if kind == "add_class":
+        tree.classes["VerifAdded"] = past.Class(name="VerifAdded")
+    elif kind == "extend":
+        tree.extend(pymoca.parser.parse(OTHER, bypass_cache=True))
+    elif kind == "rename_first":
+        if not tree.classes:
+            return "noop"
+        c = next(iter(tree.classes.values()))
+        c.name = str(c.name) + "_edited"
+    elif kind == "clear_classes":
+        tree.classes.clear()
+    else:
+        raise ValueError(kind)
+    return "ok"
+
+
 def _handler(case):
+    last = {}
     texts = case["texts"]
     folder = tempfile.mkdtemp(prefix="c01_", dir=os.getcwd())  # under the run's tmp dir: removed with it
     _clock["us"] = 0
@@ -486,6 +524,7 @@ def _handler(case):
                     o["mro"] = [c.__name__ for c in type(e).__mro__[:4]]
                     o["msg"] = str(e)[:120]
                 else:
+                    last["tree"] = tree
                     if tree is None:
                         o["out"] = "none"
                     else:
@@ -493,6 +532,8 @@ def _handler(case):
                         o["out"] = "tree" if (f[0] == "tree" and dump(tree) == f[1]) else "other"
                 o["fresh_calls"] = _counter["n"] - n0
                 o["layout"] = layout_facts(path, texts)
+            elif k == "mutate":
+                o["applied"] = mutate_tree(last.get("tree"), op[1])
             elif k == "reload":
                 importlib.reload(pymoca.parser)
                 _wrap_parse()
@@ -519,7 +560,10 @@ def _handler(case):
                     "meta_wrong": ["DROP TABLE IF EXISTS metadata", DUMMY.format("metadata")],
                     "meta_emptied": ["DELETE FROM metadata"],
                 }[kind]
-                o["applied"] = db_exec(path, stmts)
+                if (kind.startswith("retype:") or kind in RETYPE) and not integrity_ok(path):
+                    o["applied"] = "dberr:integrity"   # a table rebuild would silently repair e.g. a damaged index
+                else:
+                    o["applied"] = db_exec(path, stmts)
             elif k == "lock":
                 o["applied"] = take_lock(path, op[1])
             elif k == "file":
